@@ -993,7 +993,9 @@ query Entry($id: ID!) {
 }
 '''
 W16 = [dict(_world("W16d-non-ascii-only-in-comments-and-descriptions", _W16D_SDL, _W16D_Q), locale_safe=True),
-       _world("W16-non-ascii-text", _W16_SDL, _W16_Q),
+       # (its non-ASCII text reaches the generated files: under an ASCII locale this tree's package writer fails with
+       # UnicodeEncodeError - tolerated as a failure, never as different bytes)
+       dict(_world("W16-non-ascii-text", _W16_SDL, _W16_Q), locale_may_fail=True),
        _world("W16b-non-ascii-graphqlschema-py", _W16_SDL, "", {"target_file_path": "schema_types.py"}, strategy="graphqlschema"),
        _world("W16c-non-ascii-graphqlschema-sdl", _W16_SDL, "", {"target_file_path": "schema_out.graphql"}, strategy="graphqlschema")]
 
